@@ -34,7 +34,8 @@ class Conn:
     """Shadow record of one accepted connection."""
     __slots__ = ("cid", "sock", "accepted_at", "registered", "running", "closed_at", "closed_by", "sent", "inbuf",
                  "peer_closed", "handled", "idle_since", "listener", "dispatched_at_iter", "data_arrived_iter",
-                 "close_under_handler", "responses_done", "last_keepalive", "early_close", "polls_ready", "waits_ready")
+                 "close_under_handler", "responses_done", "last_keepalive", "early_close", "polls_ready", "waits_ready",
+                 "read_unanswered", "parked_seq", "started_seq")
 
     def __init__(self, cid, sock, now, listener):
         self.cid = cid
@@ -58,6 +59,9 @@ class Conn:
         self.early_close = None
         self.polls_ready = 0
         self.waits_ready = 0
+        self.read_unanswered = 0        # request bytes taken from the client since the last byte written to it
+        self.parked_seq = None          # event number at which it was put back into the poller as an idle keep-alive connection
+        self.started_seq = None         # event number at which its current handler started running
 
 
 class ScriptedSocket:
@@ -96,6 +100,7 @@ class ScriptedSocket:
                     raise OSError(errno.EBADF, "Bad file descriptor")
                 if c.inbuf:
                     d, c.inbuf = c.inbuf[:n], c.inbuf[n:]
+                    c.read_unanswered += len(d)
                     return d
                 if c.peer_closed:
                     return b""
@@ -122,6 +127,7 @@ class ScriptedSocket:
             if self.conn.peer_closed:
                 raise BrokenPipeError(errno.EPIPE, "Broken pipe")
             self.conn.sent += bytes(data)
+            self.conn.read_unanswered = 0
 
     def shutdown(self, how):
         pass
@@ -134,11 +140,19 @@ class ScriptedSocket:
             self.closed = True
             c = self.conn
             c.closed_at = k.now
+            c.parked_seq = None
             c.closed_by = threading.get_ident()
             if c.running is not None and c.running != threading.get_ident():
                 c.close_under_handler = True
             if c.idle_since is not None and not c.inbuf and not c.peer_closed and k.worker is not None and k.worker.alive:
                 c.early_close = k.now - c.idle_since
+            if c.read_unanswered and not c.peer_closed and k.worker is not None and k.worker.alive and not k.hang:
+                # the worker took bytes of a request from a client that is still connected and then closed the connection
+                # without writing anything back
+                k.violate("request-read-then-connection-closed-unanswered",
+                          "connection %d: %d request bytes were read, nothing was answered, the client is connected and the worker "
+                          "is not stopping - closed by the %s" % (c.cid, c.read_unanswered,
+                                                                  "loop" if threading.get_ident() == k.loop_thread else "handler thread"))
             k.log.append((k.now, "close", c.cid, "loop" if threading.get_ident() == k.loop_thread else "pool"))
             k.cond.notify_all()
 
@@ -148,6 +162,7 @@ class ScriptedListener:
         self.k = k
         self.idx = idx
         self.pending = []
+        self.phantom = 0        # times the listener looks readable although another process has taken the connection
         self.closed = False
 
     def fileno(self):
@@ -163,6 +178,9 @@ class ScriptedListener:
         k = self.k
         with k.cond:
             if not self.pending:
+                if self.phantom:
+                    self.phantom -= 1
+                    k.count("accept_eagain_after_readable")
                 raise BlockingIOError(errno.EAGAIN, "nothing to accept")
             cid = self.pending.pop(0)
             s = ScriptedSocket(k, cid, self.idx)
@@ -203,6 +221,9 @@ class ScriptedSelector:
             if isinstance(fileobj, ScriptedSocket):
                 fileobj.conn.registered = True
                 self.k.log.append((self.k.now, "register", fileobj.cid))
+                if fileobj.conn.idle_since is not None:
+                    self.k.seq += 1
+                    fileobj.conn.parked_seq = self.k.seq
 
     def unregister(self, fileobj):
         with self.k.cond:
@@ -252,6 +273,7 @@ class ControlledExecutor:
                 c = args[0].sock.conn
                 c.dispatched_at_iter = self.k.iterations
                 c.idle_since = None         # dispatched: no longer an idle keep-alive connection
+                c.parked_seq = None
                 c.polls_ready = 0
                 c.waits_ready = 0
                 self.k.log.append((self.k.now, "dispatch", c.cid))
@@ -276,6 +298,8 @@ class ControlledExecutor:
                     conn = args[0].sock.conn
                     conn.running = me
                     conn.idle_since = None
+                    k.seq += 1
+                    conn.started_seq = k.seq
             if not f.set_running_or_notify_cancel():
                 with k.cond:
                     k.thread_state(me, "idle")
@@ -431,6 +455,7 @@ class Kernel:
         self.drain_ticks = 0
         self.stop_requested_at = None
         self.worker_connections = cfgset.get("worker_connections", 1000)
+        self.seq = 0
         self.keepalive = cfgset.get("keepalive", 2)
         self.threads = cfgset.get("threads", 1)
         self.last_poll_iter = 0
@@ -478,6 +503,17 @@ class Kernel:
         if keepalive:
             conn.idle_since = self.now
             self.count("handler_finished_keepalive")
+            # the share of the slots that idle keep-alive connections may hold is worker_connections - threads: connections that
+            # were parked before this handler even started, and still are, were all counted when it decided to keep its own alive
+            lim = self.worker_connections - self.threads
+            parked = [c.cid for c in self.conns.values() if c is not conn and c.closed_at is None and c.parked_seq is not None
+                      and conn.started_seq is not None and c.parked_seq < conn.started_seq]
+            if len(parked) >= max(lim, 0) and self.worker is not None and self.worker.alive:
+                self.violate("keepalive-granted-beyond-the-idle-share",
+                             "connection %d was kept alive although %d idle keep-alive connections %s were already parked when its "
+                             "handler started (worker_connections %d - threads %d = %d)" % (
+                                 conn.cid, len(parked), parked, self.worker_connections, self.threads, lim))
+            self.count("keepalive_grant_checks")
         else:
             self.count("handler_finished_close")
 
@@ -531,6 +567,9 @@ class Kernel:
             self.deliver(cid, data)
         elif kind == "release":
             self.released.add(step[1])
+        elif kind == "phantom":
+            # a sibling worker accepts the connection first: the listener is reported readable, accept() then finds nothing
+            self.listeners[step[1] % self.nlisteners].phantom += 1
         elif kind == "disconnect":
             cid = step[1]
             cl = self.client(cid)
@@ -550,7 +589,7 @@ class Kernel:
         out = []
         for fo, data in list(sel.map.items()):
             if isinstance(fo, ScriptedListener):
-                if fo.pending:
+                if fo.pending or fo.phantom:
                     out.append((_Key(fo, data), EVENT_READ))
             elif isinstance(fo, ScriptedSocket):
                 c = fo.conn
@@ -628,10 +667,11 @@ class Kernel:
                 self.spin += 1
                 if self.spin > 60:
                     pend = [c.cid for c in self.conns.values() if c.closed_at is None and c.registered and (c.inbuf or c.peer_closed)]
-                    self.violate("loop-stopped-polling-at-capacity",
-                                 "the loop has not called select() for %d iterations: %d connections open = worker_connections, "
+                    nopen = self.open_count()
+                    self.violate("loop-stopped-polling-at-capacity" if nopen >= self.worker_connections else "loop-stopped-polling-below-capacity",
+                                 "the loop has not called select() for %d iterations: %d connections open, worker_connections = %d, "
                                  "no handler in flight; registered connections with unread events: %s" % (
-                                     self.spin, sum(1 for c in self.conns.values() if c.closed_at is None), pend))
+                                     self.spin, nopen, self.worker_connections, pend))
                     raise Budget("spin")
                 return real_futures.wait(fs, timeout=0, return_when=return_when)
             # something is in flight: environment steps until a future completes or the timeout passes
@@ -716,10 +756,26 @@ class Kernel:
                 else:
                     c.waits_ready += 1
                     if c.waits_ready > 3 and idle_thread:
-                        self.violate("ready-connection-not-served/at-capacity",
+                        nopen = self.open_count()
+                        self.violate("ready-connection-not-served/at-capacity" if nopen >= self.worker_connections
+                                     else "ready-connection-not-served/below-capacity",
                                      "connection %d has had unread request bytes for %d loop iterations in which the loop did not "
-                                     "poll (open connections = worker_connections = %d) although a handler thread is free" % (
-                                         c.cid, c.waits_ready, self.worker_connections))
+                                     "poll (open connections = %d, worker_connections = %d) although a handler thread is free" % (
+                                         c.cid, c.waits_ready, nopen, self.worker_connections))
+        # idle keep-alive connections may hold worker_connections - threads of the slots; handlers that finish at the same moment
+        # can overshoot that by threads - 1 (each looked at the count before the other parked its connection: counted, not judged),
+        # but idle keep-alive connections can never hold EVERY slot - that would be a full house with nothing to do, for good
+        if alive and self.queued == 0 and all(st != "running" for st in self.tstates.values()):
+            idle = [c.cid for c in self.conns.values() if c.closed_at is None and c.idle_since is not None and c.running is None
+                    and c.registered and not c.inbuf and not c.peer_closed]
+            lim = max(0, self.worker_connections - self.threads)
+            if len(idle) > lim:
+                self.count("info_keepalive_share_overshoot")
+            if idle and len(idle) >= self.worker_connections:
+                self.violate("every-connection-slot-held-by-idle-keepalive",
+                             "%d idle keep-alive connections %s are parked, worker_connections = %d, threads = %d: no slot is left "
+                             "for a connection that has work" % (len(idle), idle, self.worker_connections, self.threads))
+            self.count("keepalive_share_checks")
         # auxiliary agreement with the worker's own bookkeeping
         if w is not None and self.queued == 0 and all(s != "running" for s in self.tstates.values()):
             nopen = self.open_count()
